@@ -1,4 +1,5 @@
 import Ekit.Props.C08
+import Ekit.Props.C08HW
 open Ekit.DelayQ
 #print axioms c08_skel_DelayQueue_Dequeue
 #print axioms c08_skel_DelayQueue_Enqueue
@@ -19,3 +20,5 @@ open Ekit.DelayQ
 #print axioms c08_effect_marked
 #print axioms c08_effect_cleared_only_by_invocation
 #print axioms c08_linearizable_timed
+-- the same statements in the classical Herlihy–Wing form (Ekit/Conc/HerlihyWing*.lean)
+#print axioms Ekit.Props.HWForms.c08_hw_linearizable_timed
